@@ -95,12 +95,16 @@ def rule_C10(env):
                 res.add("C10.d", "default/%s" % flag, "Generator::default() sets %s to %r (must be false)" % (flag, v), env.loc(k))
     w = writers_of_fields(prog, ctx.gen_adt, ("allow_ext_opcodes", "allow_buffer_opcodes"))
     # `new` and `default` are constructors: their result is interpreted above/below and must have the flags false
-    allowed = {"allow_ext_opcodes": ("with_ext_opcodes", "default", "new"), "allow_buffer_opcodes": ("with_buffer_opcodes", "default", "new")}
+    # Configuration API (constructors, builders, setters) may write the flags: that is what "explicitly enabled" means. Code that
+    # runs as part of a generation call must not: it would turn the opt-in on behind the user's back.
+    import callgraph as CG
+    cg = CG.CallGraph(prog)
+    gen_reach = cg.reachable([prog.find("generator::Generator::generate"), prog.find("generator::Generator::generate_from_arbitrary")])
     for flag, ks in sorted(w.items()):
         for k in sorted(ks):
             obligations += 1
-            if k.split("::")[-1] not in allowed[flag]:
-                res.add("C10.d", "writer/%s/%s" % (flag, k.split("::")[-1]), "%s writes Generator.%s (only the builder method and Default may)" % (k, flag), env.loc(k))
+            if k in gen_reach:
+                res.add("C10.d", "writer/%s/%s" % (flag, k.split("::")[-1]), "%s writes Generator.%s and runs as part of a generation call" % (k, flag), env.loc(k))
     res.floor("C10.d", 2, "default flags")
     # Generator::new keeps the defaults
     try:
